@@ -21,11 +21,12 @@ from bounded.cases import _router_common as C
 from bounded.common import fail
 
 BOUND = ('single-rule routers: every rule of the exhaustive segment universe of C01 (17 segment forms incl. adjacent '
-         'wildcards, in-segment literals, anonymous wildcards, int/float/re/path filters; <=3 segments '
-         'thorough; the 3-segment ones in quick with one flavour and guided paths only) and of the 68-rule hand pool, plus seeded random rules, each in the 3 syntax flavours x request '
+         'wildcards, in-segment literals, anonymous wildcards, int/float/re/path filters; <=3 segments) and of the '
+         '68-rule hand pool, plus 300 (thorough 6000) seeded random rules, each in the 3 syntax flavours x request '
          'paths: rule-guided (each wildcard filled from a value pool incl. empty text, CR, non-ASCII, signs, leading '
-         'zeros, long/tiny/huge numerals, values containing the following literal; then perturbed) and all strings of '
-         "length <=3 (thorough <=4) over {a,b,/,1,-,.,e-acute,CR}; every matching path is round-tripped")
+         'zeros, long/tiny/huge numerals, values containing the following literal; then perturbed; 80..150 per rule '
+         "quick, 400 thorough) and all strings of length <=3 (3-segment rules quick: <=2, every 4th <=3; thorough: <=4) "
+         "over {a,b,/,1,-,.,e-acute,CR} behind a leading '/'; every path the real router matches is round-tripped")
 NONTRIVIAL_RULE = ('distinct (rule, flavour, path source); non-trivial = the rule has a wildcard and matches at least one generated path; one case round-trips every '
                    'matching path among 100..5000 generated ones')
 
@@ -78,21 +79,21 @@ def gen_cases(tier, seed):
             if has_wild:
                 src.append(['all', 3 if quick else 4, 0, 1])
             yield dict(rule=rule, flavour=fl, paths=src)
-    # three-segment universe: quick = one flavour each (rotating) and guided paths only
+    # three-segment universe
     for rule in C.universe_rules(3):
         if sum(seg[1].count('/') for seg in rule if S.is_lit(seg)) < 3 or not C.rule_has_wildcard(rule):
             continue                      # shorter ones are in `small`
         k += 1
-        if quick:
-            yield dict(rule=rule, flavour=S.FLAVOURS[k % 3], paths=[['guided', k, 60, 0]])
-            continue
         seen_text = set()
         for fl in S.FLAVOURS:
             text = S.render(rule, fl)
             if text in seen_text:
                 continue
             seen_text.add(text)
-            yield dict(rule=rule, flavour=fl, paths=[['guided', k, 300, 1], ['all', 4 if k % 4 == 0 else 3, 0, 1]])
+            if quick:
+                yield dict(rule=rule, flavour=fl, paths=[['guided', k, 80, 0], ['all', 3 if k % 4 == 0 else 2, 0, 1]])
+            else:
+                yield dict(rule=rule, flavour=fl, paths=[['guided', k, 400, 1], ['all', 4, 0, 1]])
 
 
 def _paths(case):
@@ -136,6 +137,7 @@ def _diag(rule, m):
     """Facts about the assignment that the FINDINGS recognisers look at."""
     d = {}
     d['float_repr_not_decimal'] = _float_repr_not_decimal(m['values'])
+    d['float_infinite'] = any(isinstance(v, float) and v in (float('inf'), float('-inf')) for v in m['values'])
     # a path wildcard followed by a literal / a filtered wildcard that captured the empty text
     # a path wildcard followed by a literal whose captured value does not itself contain that literal (the
     # look-ahead pattern `.+(?=literal)` then cannot match the bare value)
@@ -213,8 +215,15 @@ def _path_then_literal(case, failure):
 
 
 def _float_exponent(case, failure):
-    """A float value whose str() is not a plain decimal (exponent notation, inf): the built URL is not matched."""
-    return (failure.get('clause') in ('K3.no_match', 'K3.values') and failure.get('float_repr_not_decimal') is True)
+    """A float value whose str() is not a plain decimal: exponent notation (1e+22, 1e-05) gives a URL the rule
+    does not match; 'inf' (a numeral beyond the float range was matched) does not even pass url()'s self-check."""
+    if failure.get('float_repr_not_decimal') is not True:
+        return False
+    if failure.get('clause') in ('K3.no_match', 'K3.values'):
+        return True
+    return (failure.get('clause') == 'K1.url_raises' and failure.get('error', '').startswith('AssertionError')
+            and failure.get('float_infinite') is True and not failure.get('path_before_literal')
+            and not failure.get('empty_filtered_capture'))
 
 
 def _empty_capture(case, failure):
